@@ -104,6 +104,56 @@ func c03PresenceIndex(c *Ctx) {
 				"handler skips silently when %s has no key %s; builder %s: %s", exprString(ix.X), exprString(ix.Index), funcID(builder), why)
 			return true
 		})
+		// the same skip written as a guard: `names, ok := currentIndex[pkg]; if !ok { continue }; … report …`
+		ast.Inspect(fr.Decl.Body, func(n ast.Node) bool {
+			blk, ok := n.(*ast.BlockStmt)
+			if !ok {
+				return true
+			}
+			for i, st := range blk.List {
+				as, ok := st.(*ast.AssignStmt)
+				if !ok || len(as.Lhs) != 2 || len(as.Rhs) != 1 || i+1 >= len(blk.List) {
+					continue
+				}
+				ix, ok := ast.Unparen(as.Rhs[0]).(*ast.IndexExpr)
+				if !ok {
+					continue
+				}
+				builder := built[identObj(info, ix.X)]
+				okObj := identObj(info, as.Lhs[1])
+				if builder == nil || okObj == nil {
+					continue
+				}
+				g, ok := blk.List[i+1].(*ast.IfStmt)
+				if !ok || g.Else != nil || len(g.Body.List) != 1 {
+					continue
+				}
+				ue, ok := ast.Unparen(g.Cond).(*ast.UnaryExpr)
+				if !ok || ue.Op != token.NOT || identObj(info, ue.X) != okObj {
+					continue
+				}
+				if br, ok := g.Body.List[0].(*ast.BranchStmt); !ok || br.Tok != token.CONTINUE {
+					continue
+				}
+				reports := false
+				for _, rest := range blk.List[i+2:] {
+					ast.Inspect(rest, func(m ast.Node) bool {
+						if call, ok := m.(*ast.CallExpr); ok && isAnnotationCall(info, call) {
+							reports = true
+						}
+						return true
+					})
+				}
+				if !reports {
+					continue
+				}
+				c.CallSites++
+				perFile, why := builderKeysEveryFile(p, builder)
+				c.Ob(rule, fr.ID()+"/"+exprString(ix.X)+"<-"+builder.Name(), g.Pos(), perFile, true,
+					"handler skips silently when %s has no key %s; builder %s: %s", exprString(ix.X), exprString(ix.Index), funcID(builder), why)
+			}
+			return true
+		})
 	}
 }
 
